@@ -23,11 +23,14 @@ import os
 from fractions import Fraction
 from typing import Any, Dict, List, Optional, Tuple
 
+import logging
+
 from harness import common as C
 from harness import pdfwriter as W
 from harness.props import c02_writer as CW
 
 LEVEL = "proof"
+logging.getLogger("pdfminer").setLevel(logging.ERROR)   # e.g. "Circular cross-reference chain" on generated cycles
 RULE = ("histories of 1-6 revisions over object numbers 1..40 (define/override sets, values of every PDF type incl. "
         "streams), written with a form per revision drawn from {classic table, xref stream, hybrid}, object-stream "
         "groups, W widths 0-4, Index shapes (maximal runs, gaps filled with free rows, head entry 0, full [0 Size) with "
@@ -38,8 +41,11 @@ RULE = ("histories of 1-6 revisions over object numbers 1..40 (define/override s
 TRUSTED_BASE = [
     "tools/harness/props/c02_writer.py (multi-revision PDF writer) and its description of what it wrote; the "
     "byte-level parts of the description are slices of the file given to pdfminer",
-    "hand model lean/PdfVerif/Model/Xref.lean (correspondence-checked per file); object syntax and stream filters "
+    "hand model lean/PdfVerif/Model/Xref.lean (correspondence-checked per file), built on Gen/Xref.lean which "
+    "tools/translate/gen_c02.py regenerates from pdfdocument.py/utils.py on every run; object syntax and stream filters "
     "are parameters of the model (objects appear as parsed headers + opaque value ids; C01/C03 cover them)",
+    "Lean twin of the writer (Spec/XrefWrite.lean): the harness checks Python writer bytes = Lean writer bytes for "
+    "every table text and xref-stream payload, so the round-trip theorems speak about the bytes pdfminer read",
     "zlib for Flate on xref/object streams",
 ]
 ASSUMPTIONS = [
@@ -60,12 +66,22 @@ STATEMENT_STATUS: Dict[str, str] = {
     "C02_xrefstm_entry": "proved (any number of Index ranges, widths 0.. with nunpack defaults)",
     "C02_xrefstm_objids": "proved for the repaired get_objids",
     "C02_objids_pinned_cex": "proved counter-example for the pinned get_objids (fixed in the repo)",
+    "C02_table_load": "proved (round 2): byte-level PDFXRef.load inverts the table writer, every EOL style, any subsections",
+    "C02_table_lookup": "proved (round 2): loaded table answers with the last in-use line written for n",
+    "C02_trailer_line": "proved (round 2)",
+    "C02_stream_load / C02_stream_load_default": "proved (round 2): PDFXRefStream.load + get_pos + get_objids end to end incl. /Index default",
+    "C02_chain_order": "proved (round 2): table -> XRefStm -> Prev, circular Prev not followed",
+    "C02_table_represents / C02_stream_represents": "proved (round 2): SecRep follows from what the writer wrote",
+    "C02_row_types / C02_inuse_types / C02_objstm_index / C02_defaults / C02_literals":
+        "proved (round 2) about definitions REGENERATED from the Python source (Gen/Xref.lean)",
+    "C02_table_fuel / C02_fallback_fuel": "proved (round 2): loops terminate within one iteration per byte",
+    "C02_fallback": "proved (round 2): body scan offsets = true offsets; hypothesis ItemsOK checked per damaged file by itemsOKb",
+    "C02_cue_header": "proved (round 2): PDFOBJ_CUE matcher accepts every rendered `n g obj` header",
     "C02_revreadlines_bufsize": "proved (all b >= 1, all byte strings)",
     "C02_startxref_bufsize": "proved (corollary)",
     "C02_damaged_cex": "proved counter-example (open finding wellformed-but-wrong-xref-no-rescan)",
-    "C02_damaged_partial": "partial: only for tables whose offsets are right; body-scan theorem (C02_fallback) not proved",
-    "table_load / stream_load / hybrid_load (byte-level writer inverse for the classic table text)": "not proved: model + correspondence only",
-    "C02_fallback": "not proved: fallbackLoad is modelled and tied by correspondence on classic files",
+    "C02_damaged_partial": "partial: the damaged-file clause holds when the cross-reference data that parses is right; "
+                           "a parsable but wrong table is never rebuilt (open finding)",
 }
 
 BUFSIZES = [1, 2, 3, 7, 16, 4096]
@@ -304,7 +320,9 @@ def gen_case(rng, small: bool = False) -> Dict[str, Any]:
                 "order_seed": rng.choice([0, rng.randint(1, 10 ** 6)]),
                 "trailer_same_line": rng.random() < 0.3,
                 "f_for_hidden": rng.random() < 0.7,
-                "first_pad": rng.choice([0, 0, 1, 3])}
+                "first_pad": rng.choice([0, 0, 1, 3]),
+                # circular chain (the oldest section's /Prev points at itself): read_xref_from must stop
+                "self_prev": k == 0 and rng.random() < 0.08}
         if plan["full_index"]:
             # every number not defined anywhere yet is written free: allowed in revision 0 only
             pass
@@ -325,7 +343,7 @@ def build(case: Dict[str, Any]) -> Tuple[bytes, Dict[str, Any], List[CW.Rev]]:
                      full_index=p["full_index"], omit_index=p["omit_index"], xfilter=p["xfilter"],
                      ofilter=p["ofilter"], containers_in_table=p["containers_in_table"],
                      order_seed=p["order_seed"], trailer_same_line=p["trailer_same_line"],
-                     f_for_hidden=p["f_for_hidden"], first_pad=p["first_pad"])
+                     f_for_hidden=p["f_for_hidden"], first_pad=p["first_pad"], self_prev=p.get("self_prev", False))
         pl.fill_gaps = list(p["fill_gaps"])
         plans.append(pl)
     maxn = max(max(r.defs) for r in revs)
@@ -598,8 +616,8 @@ def shrink_case(case: Dict[str, Any], config: Tuple[int, bool], queries: List[in
         for k in range(len(cur["plans"])):
             for key, val in (("groups", []), ("w", None), ("fill_gaps", []), ("xfilter", "none"), ("ofilter", False),
                              ("order_seed", 0), ("first_pad", 0), ("full_index", False), ("head", False),
-                             ("trailer_same_line", False), ("form", "table")):
-                if budget <= 0 or cur["plans"][k][key] == val:
+                             ("trailer_same_line", False), ("self_prev", False), ("form", "table")):
+                if budget <= 0 or cur["plans"][k].get(key, val) == val:
                     continue
                 c = json.loads(json.dumps(cur))
                 c["plans"][k][key] = val
@@ -1137,6 +1155,8 @@ def run_history_cases(ctx: C.Ctx) -> None:
             ctx.branch("form:" + p["form"])
         ctx.branch("eol:" + repr(case["eol"]))
         ctx.branch("tail:" + case["tail"])
+        if case["plans"][0].get("self_prev"):
+            ctx.branch("circular-prev")
         for sec in layout["sections"]:
             for part in sec["parts"]:
                 if part["kind"] == "stream":
